@@ -210,6 +210,11 @@ struct Post {
     over: Option<Override>,
     /// provider conversation for this post (used when the input is handled as a prompt)
     turns: Vec<Turn>,
+    /// POST /sessions/{run session}/cancel: 0 never, 1 right after the 202, 2 a few ms later,
+    /// 3 after the run ended. The handler only unregisters the session handle: the run itself
+    /// must still complete its lifecycle, so the oracle is unchanged.
+    #[serde(default)]
+    cancel: u8,
 }
 
 #[derive(Debug, Clone, Serialize, Deserialize, PartialEq)]
@@ -435,8 +440,8 @@ fn post_s() -> BoxedStrategy<Post> {
         1 => (proptest::option::of(any::<bool>()), any::<bool>(), proptest::option::of(any::<bool>()))
             .prop_map(|(stateless, model, parallel_tool_calls)| Some(Override { stateless, model, parallel_tool_calls })),
     ];
-    (input_s(), over, turns_s())
-        .prop_map(|(input, over, turns)| Post { input, over, turns })
+    (input_s(), over, turns_s(), prop_oneof![6 => Just(0u8), 1 => Just(1u8), 1 => Just(2u8), 1 => Just(3u8)])
+        .prop_map(|(input, over, turns, cancel)| Post { input, over, turns, cancel })
         .boxed()
 }
 
@@ -931,6 +936,14 @@ async fn do_post(auth: &Authority, thread: &str, content: &str, over: Option<Val
 }
 
 /// Returns Err(why) when the case could not be brought to quiescence (inconclusive).
+async fn cancel_session(auth: &Authority, sid: &str, when: u8, rep: &mut CaseReport) {
+    if when == 2 {
+        tokio::time::sleep(Duration::from_millis(3)).await;
+    }
+    let (s, _) = rv::http::call_json(&auth.router, Method::POST, &format!("/sessions/{sid}/cancel"), None).await;
+    rep.class(format!("cancel:{}:{}", match when { 1 => "right_after_202", 2 => "few_ms_later", _ => "after_run_ended" }, s.as_u16()));
+}
+
 async fn drive(case: &Case, send_second_input: bool, rep: &mut CaseReport) -> Result<Driven, String> {
     // ---- provider script: all turns of prompt-like inputs, in issue order
     let mut flat_turns: Vec<Turn> = Vec::new();
@@ -1114,7 +1127,16 @@ async fn drive(case: &Case, send_second_input: bool, rep: &mut CaseReport) -> Re
         job_ids.extend(jobs_out.into_iter().flatten());
         plain_run = plain_out;
         for a in &accepted {
+            let c = case.posts[a.idx].cancel;
+            if c == 1 || c == 2 {
+                cancel_session(&auth, &a.session_id, c, rep).await;
+            }
+        }
+        for a in &accepted {
             wait_run(&auth, reliable, &a.session_id, rep).await?;
+            if case.posts[a.idx].cancel == 3 {
+                cancel_session(&auth, &a.session_id, 3, rep).await;
+            }
         }
     } else {
         let n = case.posts.len();
@@ -1126,7 +1148,14 @@ async fn drive(case: &Case, send_second_input: bool, rep: &mut CaseReport) -> Re
                 record(i, s, &v, &mut accepted, rep);
                 if accepted.len() > before {
                     let sid = accepted[before].session_id.clone();
+                    let c = case.posts[i].cancel;
+                    if c == 1 || c == 2 {
+                        cancel_session(&auth, &sid, c, rep).await;
+                    }
                     wait_run(&auth, reliable, &sid, rep).await?;
+                    if c == 3 {
+                        cancel_session(&auth, &sid, 3, rep).await;
+                    }
                 }
             }
             for j in case.jobs.iter().filter(|j| pick(j.at, n + 1) == slot) {
